@@ -13,7 +13,8 @@ From SV Require Import Base.Base IR.State IR.NS IR.Ops Hier.Paths Hier.Trace
   Proofs.NsInv Proofs.QueryEnumBase Proofs.QueryEnumInst Proofs.QueryEnumPorts Proofs.QueryEnumNetl
   Proofs.QueryEnumPins Proofs.QueryEnumDefs Proofs.QueryEnumLibs Proofs.QueryEnumCables Proofs.QueryEnumFull Proofs.QueryEnumEx
   Proofs.QueryEnumTerm Proofs.QueryEnumTerm2 Proofs.QueryEnumWires Proofs.QueryEnumWiresSpec Proofs.QueryEnumWiresAll
-  Proofs.QueryEnumCablesAll Proofs.QueryEnumAllFull.
+  Proofs.QueryEnumCablesAll Proofs.QueryEnumAllFull Proofs.QueryEnumWiresAllRoots Proofs.QueryEnumCablesAllRoots Proofs.QueryEnumLookIdent
+  Proofs.QueryEnumPolCoh Proofs.QueryEnumLookAll.
 Import ListNotations.
 Local Open Scope string_scope.
 Local Open Scope list_scope.
@@ -125,7 +126,11 @@ Definition C13_full : Prop := filter_full_statement.
    element; what the first stage yielded is kept apart).
    lookups_ok: every lookup agrees with the linear scan that returns every child carrying the value
    (for a registered lookup: the invariant of property C10; for the scan itself - user keys - trivially,
-   since the repair of C13-K5); patterns are non-empty strings. *)
+   since the repair of C13-K5); patterns are non-empty strings.
+   "matches" (sel_match) is per element: an exact pattern is compared the way the namespace of the
+   element compares - fold e: the key is EDIF.identifier and the element is under the EDIF policy, then
+   case-insensitively - everywhere: fast lookup, scan, name-map stages, get_netlists (finding C13-K4
+   repaired: only the fast lookup used to fold). *)
 Theorem C13_full_holds : C13_full.
 Proof. exact filter_full. Qed.
 Print Assumptions C13_full_holds.
@@ -134,37 +139,46 @@ Print Assumptions C13_full_holds.
    other order and with the pattern repeated), get_definitions / get_ports / get_cables likewise,
    get_instances([definition, instance of it], 'a*'): one element named a, yielded once *)
 Example C13_former_duplicate_witnesses :
-  run_query true false w_key true BFound [] [0] w_pats = [0] /\
-  (run_query true false w_key true BFound [] [0] [s2l "a*"; s2l "a"] = [0] /\
-   run_query true false w_key true BFound [] [0] [s2l "a"; s2l "a"] = [0]) /\
-  run_query true false w_key false BNames [] [0] w_pats = [0] /\
-  run_query true false w_key true BFound [(Filter.scan_lookup w_key [0], [0])] [0] [s2l "a*"] = [0].
+  run_query true false w_key (fun _ => false) true BFound [] [0] w_pats = [0] /\
+  (run_query true false w_key (fun _ => false) true BFound [] [0] [s2l "a*"; s2l "a"] = [0] /\
+   run_query true false w_key (fun _ => false) true BFound [] [0] [s2l "a"; s2l "a"] = [0]) /\
+  run_query true false w_key (fun _ => false) false BNames [] [0] w_pats = [0] /\
+  run_query true false w_key (fun _ => false) true BFound [(Filter.scan_lookup w_key (fun _ => false) [0], [0])] [0] [s2l "a*"] = [0].
 Proof.
   split; [exact witness_found_once|]. split; [exact witness_found_once_rev|].
   split; [exact witness_names_once|exact witness_found_not_reiterated].
 Qed.
 
+(* the former witness of C13-K4: elements 1 and 2 carry the identifier Foo, 1 is under the EDIF policy:
+   the exact pattern FOO selects 1 and only 1, in the name-map stages, through the scan, in get_netlists *)
+Example C13_exact_identifier_case_example :
+  run_query true false f_key f_fold false BNames [] [1; 2] [s2l "FOO"] = [1] /\
+  run_query true false f_key f_fold false BNames [(Filter.scan_lookup f_key f_fold [1; 2], [1; 2])] [] [s2l "FOO"] = [1] /\
+  run_query true false f_key f_fold true BFound [] [1; 2] [s2l "FOO"] = [1] /\
+  run_netlists true false f_key f_fold [1; 2] [s2l "FOO"] = [1].
+Proof. exact x_fold. Qed.
+
 Example C13_filter_hypotheses_satisfiable :
-  lookups_ok x_key x_parents /\ ~ In [] [s2l "a[0]"; s2l "a*"].
+  lookups_ok x_key (fun _ => false) x_parents /\ ~ In [] [s2l "a[0]"; s2l "a*"].
 Proof. exact x_lookups_ok. Qed.
 
 (* stage A alone never yields an element twice, whatever the lookups answer *)
 Theorem C13_stageA_NoDup : forall key mt ab nk parents pats found,
   NoDup (stageA key mt ab nk parents pats found).
-Proof. exact stageA_NoDup. Qed.
+Proof. exact (fun key => stageA_NoDup key (fun _ => false)). Qed.
 Print Assumptions C13_stageA_NoDup.
 
 (* get_netlists *)
-Theorem C13_netlists_spec : forall ic ir key objs pats, ~ In [] pats ->
-  NoDup (run_netlists ic ir key objs pats) /\
-  forall e, In e (run_netlists ic ir key objs pats) <-> In e objs /\ sel_match ic ir key pats e = true.
+Theorem C13_netlists_spec : forall ic ir key fold objs pats, ~ In [] pats ->
+  NoDup (run_netlists ic ir key fold objs pats) /\
+  forall e, In e (run_netlists ic ir key fold objs pats) <-> In e objs /\ sel_match ic ir key fold pats e = true.
 Proof. exact run_netlists_spec. Qed.
 Print Assumptions C13_netlists_spec.
 
 Example C13_netlists_example :
   ~ In [] [s2l "n1"; s2l "N*"] /\
   run_netlists false false (fun e => match e with 0 => Some (s2l "n1") | 1 => Some (s2l "n2") | _ => None end)
-               [0; 1; 0; 2] [s2l "n1"; s2l "N*"] = [0; 1].
+               (fun _ => false) [0; 1; 0; 2] [s2l "n1"; s2l "N*"] = [0; 1].
 Proof. exact x_netlists. Qed.
 
 (* the name stage of the hierarchical queries *)
@@ -232,6 +246,29 @@ Theorem C13_lookup_hypothesis_default_policy : forall s reg k r,
 Proof. exact lookok_default_policy. Qed.
 Print Assumptions C13_lookup_hypothesis_default_policy.
 
+(* under the EDIF policy the hypothesis holds for EDIF.identifier as well (finding C13-K4 repaired: the
+   scan compares an identifier the way the namespace of the child does): the table answers with the
+   child whose lower-cased identifier is the lower-cased value (C10's invariant NsInv) and the scan
+   returns exactly that child - provided the children of a parent with an EDIF table are themselves
+   under the EDIF policy (PolCoh: child[".NS"] follows the parent, NamespaceManager.add). PolCoh holds in
+   every state reached by editing calls (C13_policy_coherence_reachable), so the hypothesis LookOK is
+   discharged there for both registered keys (C13_lookup_hypothesis_reachable) - no side condition left. *)
+Theorem C13_lookup_hypothesis_for_identifiers : forall s reg r,
+  NsInv s -> ns_rel r = true -> (forall p, NoDup (kids s r p)) -> PolCoh s r -> LookOK s reg str_IDENT r.
+Proof. exact lookok_edif_ident. Qed.
+Print Assumptions C13_lookup_hypothesis_for_identifiers.
+
+Theorem C13_policy_coherence_reachable : forall ops r, ns_rel r = true -> PolCoh (Ops.run ops State.init) r.
+Proof. exact reachable_polcoh. Qed.
+Print Assumptions C13_policy_coherence_reachable.
+
+(* in every state reached by editing calls: global_service.lookup = the scan, for .NAME and for
+   EDIF.identifier, under either policy, lookups registered or not (user keys: C13_lookup_hypothesis_for_scanned_keys) *)
+Theorem C13_lookup_hypothesis_reachable : forall ops reg r, ns_rel r = true ->
+  LookOK (Ops.run ops State.init) reg str_NAME r /\ LookOK (Ops.run ops State.init) reg str_IDENT r.
+Proof. exact (fun ops reg r Hr => conj (reachable_lookok_name ops reg r Hr) (reachable_lookok_ident ops reg r Hr)). Qed.
+Print Assumptions C13_lookup_hypothesis_reachable.
+
 (* the former witness of C13-K3: child 10 carries the identifier x; exact pattern, registered and
    deregistered lookups, and the wildcard form agree *)
 Example C13_default_policy_hypotheses_satisfiable :
@@ -254,8 +291,8 @@ Print Assumptions C13_lookup_hypothesis_for_scanned_keys.
 Definition k5_key (e : id) : option str := match e with 1 | 2 => Some (s2l "v") | _ => None end.
 Example C13_scanned_keys_example :
   true && registered_key (s2l "USER.k") = false /\
-  run_query true false k5_key false BNames [(Filter.scan_lookup k5_key [1; 2; 3], [1; 2; 3])] [] [s2l "v"] = [1; 2] /\
-  run_query true false k5_key false BNames [(Filter.scan_lookup k5_key [1; 2; 3], [1; 2; 3])] [] [s2l "v*"] = [1; 2].
+  run_query true false k5_key (fun _ => false) false BNames [(Filter.scan_lookup k5_key (fun _ => false) [1; 2; 3], [1; 2; 3])] [] [s2l "v"] = [1; 2] /\
+  run_query true false k5_key (fun _ => false) false BNames [(Filter.scan_lookup k5_key (fun _ => false) [1; 2; 3], [1; 2; 3])] [] [s2l "v*"] = [1; 2].
 Proof. vm_compute. repeat split; reflexivity. Qed.
 
 Example C13_enumeration_hypotheses_satisfiable :
@@ -280,7 +317,7 @@ Theorem C13_get_instances : forall s, QWF s -> forall o fuel root rec inside pat
   forall e, In e res <->
     ((reachA_instances s rec inside root e /\ Filter.has_key (key_of s (q_key o)) e = true) \/
      reachB_instances s rec inside root e) /\
-    (sel_match (q_case o) (q_re o) (key_of s (q_key o)) pats e = true /\ q_cb o e = true).
+    (sel_match (q_case o) (q_re o) (key_of s (q_key o)) (fold_of s (q_key o)) pats e = true /\ q_cb o e = true).
 Proof. exact query_instances_spec. Qed.
 Print Assumptions C13_get_instances.
 
@@ -310,7 +347,7 @@ Theorem C13_get_instances_filters_unfiltered : forall s o fuel roots rec inside 
   LookOK s (q_reg o) (q_key o) RChildren -> ~ In [] pats ->
   query_instances s o fuel roots rec inside pats = WOk res ->
   query_instances s (unfiltered o) fuel roots rec inside star_pat = WOk ures ->
-  forall e, In e res <-> In e ures /\ sel_match (q_case o) (q_re o) (key_of s (q_key o)) pats e = true.
+  forall e, In e res <-> In e ures /\ sel_match (q_case o) (q_re o) (key_of s (q_key o)) (fold_of s (q_key o)) pats e = true.
 Proof. exact instances_filters_unfiltered. Qed.
 Print Assumptions C13_get_instances_filters_unfiltered.
 
@@ -346,7 +383,7 @@ Theorem C13_get_definitions : forall s, QWF s -> forall o fuel root rec inside p
   query_definitions s o fuel [root] rec inside pats = WOk res ->
   forall e, In e res <->
     (reachA_definitions s inside root e \/ reachB_definitions s rec inside root e) /\
-    (sel_match (q_case o) (q_re o) (key_of s (q_key o)) pats e = true /\ q_cb o e = true).
+    (sel_match (q_case o) (q_re o) (key_of s (q_key o)) (fold_of s (q_key o)) pats e = true /\ q_cb o e = true).
 Proof. exact query_definitions_spec. Qed.
 Print Assumptions C13_get_definitions.
 
@@ -359,7 +396,7 @@ Theorem C13_get_definitions_filters_unfiltered : forall s o fuel roots rec insid
   LookOK s (q_reg o) (q_key o) RDefs -> ~ In [] pats ->
   query_definitions s o fuel roots rec inside pats = WOk res ->
   query_definitions s (unfiltered o) fuel roots rec inside star_pat = WOk ures ->
-  forall e, In e res <-> In e ures /\ sel_match (q_case o) (q_re o) (key_of s (q_key o)) pats e = true.
+  forall e, In e res <-> In e ures /\ sel_match (q_case o) (q_re o) (key_of s (q_key o)) (fold_of s (q_key o)) pats e = true.
 Proof. exact definitions_filters_unfiltered. Qed.
 Print Assumptions C13_get_definitions_filters_unfiltered.
 
@@ -396,7 +433,7 @@ Theorem C13_get_libraries : forall s, QWF s -> forall o fuel root rec inside pat
   query_libraries s o fuel [root] rec inside pats = WOk res ->
   forall e, In e res <->
     (reachA_libraries s root e \/ reachB_libraries s rec inside root e) /\
-    (sel_match (q_case o) (q_re o) (key_of s (q_key o)) pats e = true /\ q_cb o e = true).
+    (sel_match (q_case o) (q_re o) (key_of s (q_key o)) (fold_of s (q_key o)) pats e = true /\ q_cb o e = true).
 Proof. exact query_libraries_spec. Qed.
 Print Assumptions C13_get_libraries.
 
@@ -408,7 +445,7 @@ Theorem C13_get_libraries_instance_outside : forall s, QWF s -> forall o fuel ro
   query_libraries s o fuel [root] rec false pats = WOk res ->
   forall e, In e res <->
     (exists p d', par s RChildren x = Some p /\ star (used_by s) rec p d' /\ par s RDefs d' = Some e) /\
-    (sel_match (q_case o) (q_re o) (key_of s (q_key o)) pats e = true /\ q_cb o e = true).
+    (sel_match (q_case o) (q_re o) (key_of s (q_key o)) (fold_of s (q_key o)) pats e = true /\ q_cb o e = true).
 Proof. exact query_libraries_instance_outside. Qed.
 Print Assumptions C13_get_libraries_instance_outside.
 
@@ -435,7 +472,7 @@ Theorem C13_get_libraries_filters_unfiltered : forall s o fuel roots rec inside 
   LookOK s (q_reg o) (q_key o) RLibs -> ~ In [] pats ->
   query_libraries s o fuel roots rec inside pats = WOk res ->
   query_libraries s (unfiltered o) fuel roots rec inside star_pat = WOk ures ->
-  forall e, In e res <-> In e ures /\ sel_match (q_case o) (q_re o) (key_of s (q_key o)) pats e = true.
+  forall e, In e res <-> In e ures /\ sel_match (q_case o) (q_re o) (key_of s (q_key o)) (fold_of s (q_key o)) pats e = true.
 Proof. exact libraries_filters_unfiltered. Qed.
 Print Assumptions C13_get_libraries_filters_unfiltered.
 
@@ -472,7 +509,7 @@ Theorem C13_get_ports : forall s, QWF s -> forall o fuel root pats res,
   NoDup res /\
   forall e, In e res <->
     (reachA_ports s root e \/ reachB_ports s root e) /\
-    (sel_match (q_case o) (q_re o) (key_of s (q_key o)) pats e = true /\ q_cb o e = true).
+    (sel_match (q_case o) (q_re o) (key_of s (q_key o)) (fold_of s (q_key o)) pats e = true /\ q_cb o e = true).
 Proof. exact query_ports_spec. Qed.
 Print Assumptions C13_get_ports.
 
@@ -485,7 +522,7 @@ Theorem C13_get_ports_filters_unfiltered : forall s o fuel roots pats res ures,
   LookOK s (q_reg o) (q_key o) RPorts -> ~ In [] pats ->
   query_ports s o fuel roots pats = WOk res ->
   query_ports s (unfiltered o) fuel roots star_pat = WOk ures ->
-  forall e, In e res <-> In e ures /\ sel_match (q_case o) (q_re o) (key_of s (q_key o)) pats e = true.
+  forall e, In e res <-> In e ures /\ sel_match (q_case o) (q_re o) (key_of s (q_key o)) (fold_of s (q_key o)) pats e = true.
 Proof. exact ports_filters_unfiltered. Qed.
 Print Assumptions C13_get_ports_filters_unfiltered.
 
@@ -510,7 +547,7 @@ Theorem C13_get_netlists : forall s, QWF s -> forall o fuel root pats res, ~ In 
   query_netlists s o fuel [root] pats = WOk res ->
   NoDup res /\
   forall n, In n res <-> reach_netlists s root n /\
-    (sel_match (q_case o) (q_re o) (key_of s (q_key o)) pats n = true /\ q_cb o n = true).
+    (sel_match (q_case o) (q_re o) (key_of s (q_key o)) (fold_of s (q_key o)) pats n = true /\ q_cb o n = true).
 Proof. exact query_netlists_spec. Qed.
 Print Assumptions C13_get_netlists.
 
@@ -541,7 +578,7 @@ Theorem C13_get_cables : forall s, QWF s -> forall o fuel root rec x pats res,
   NoDup res /\
   forall e, In e res <->
     (reachA_cables s x root e \/ reachB_cables s rec x root e) /\
-    (sel_match (q_case o) (q_re o) (key_of s (q_key o)) pats e = true /\ q_cb o e = true).
+    (sel_match (q_case o) (q_re o) (key_of s (q_key o)) (fold_of s (q_key o)) pats e = true /\ q_cb o e = true).
 Proof. exact query_cables_spec. Qed.
 Print Assumptions C13_get_cables.
 
@@ -564,9 +601,28 @@ Theorem C13_get_cables_all : forall s, QWF s -> forall o fuel root rec pats res,
   NoDup res /\
   forall e, In e res <->
     ((exists d, lead_defs s root d /\ par s RCables e = Some d) \/ cables_all s root e) /\
-    (sel_match (q_case o) (q_re o) (key_of s (q_key o)) pats e = true /\ q_cb o e = true).
+    (sel_match (q_case o) (q_re o) (key_of s (q_key o)) (fold_of s (q_key o)) pats e = true /\ q_cb o e = true).
 Proof. exact query_cables_all_spec. Qed.
 Print Assumptions C13_get_cables_all.
+
+(* ANY COLLECTION of roots, exact: for get_cables the result is the union over the roots (a mark set
+   during an earlier root's walk only suppresses work already done) *)
+Theorem C13_get_cables_all_roots_candidates : forall s, QWF s -> forall rec fuel roots ps os,
+  cands_cables s fuel roots rec SAll = WOk (ps, os) ->
+  (forall d, In d ps <-> exists it, In it roots /\ lead_defs s it d) /\ NoDup os /\
+  forall c, In c os <-> exists it, In it roots /\ cables_all s it c.
+Proof. exact cands_cables_all_roots_exact. Qed.
+Print Assumptions C13_get_cables_all_roots_candidates.
+
+Theorem C13_get_cables_all_roots : forall s, QWF s -> forall o fuel roots rec pats res,
+  LookOK s (q_reg o) (q_key o) RCables -> ~ In [] pats ->
+  query_cables s o fuel roots rec SAll pats = WOk res ->
+  NoDup res /\
+  forall e, In e res <->
+    (exists it, In it roots /\ ((exists d, lead_defs s it d /\ par s RCables e = Some d) \/ cables_all s it e)) /\
+    (sel_match (q_case o) (q_re o) (key_of s (q_key o)) (fold_of s (q_key o)) pats e = true /\ q_cb o e = true).
+Proof. exact query_cables_all_roots_spec. Qed.
+Print Assumptions C13_get_cables_all_roots.
 
 (* the wires searched = the final mark set of the loop = the closure *)
 Theorem C13_get_cables_all_searched_wires : forall s, QWF s -> forall rec fuel root st',
@@ -596,7 +652,7 @@ Theorem C13_get_cables_filters_unfiltered : forall s o fuel roots rec x pats res
   LookOK s (q_reg o) (q_key o) RCables -> ~ In [] pats ->
   query_cables s o fuel roots rec x pats = WOk res ->
   query_cables s (unfiltered o) fuel roots rec x star_pat = WOk ures ->
-  forall e, In e res <-> In e ures /\ sel_match (q_case o) (q_re o) (key_of s (q_key o)) pats e = true.
+  forall e, In e res <-> In e ures /\ sel_match (q_case o) (q_re o) (key_of s (q_key o)) (fold_of s (q_key o)) pats e = true.
 Proof. exact cables_filters_unfiltered. Qed.
 Print Assumptions C13_get_cables_filters_unfiltered.
 
@@ -667,6 +723,21 @@ Theorem C13_get_wires_all_sound : forall s cb fuel roots rec l res,
   forall w, In w res -> cb w = true /\ (In w (yielded l) \/ closure_of s (searched l) w).
 Proof. exact query_wires_all_sound. Qed.
 Print Assumptions C13_get_wires_all_sound.
+
+(* selection ALL for ANY COLLECTION of roots, exact: the first loop names the union of what each root
+   names (all_roots_out); the second loop is the closure from the collected pins on paths outside the
+   wires the first loop yielded for ANY of the roots - so the result for a collection can be smaller than
+   the union of the single-root results' searches, and is stated over the collection as a whole *)
+Theorem C13_get_wires_all_roots : forall s, QWF s -> forall rec cb fuel roots res,
+  query_wires s cb fuel roots rec SAll = WOk res ->
+  NoDup res /\ forall w, In w res <-> reach_wires_all_roots s roots w /\ cb w = true.
+Proof. exact query_wires_all_roots_spec. Qed.
+Print Assumptions C13_get_wires_all_roots.
+
+Theorem C13_reach_wires_all_roots_one : forall s root w,
+  reach_wires_all_roots s [root] w <-> reach_wires_all s root w.
+Proof. exact reach_wires_all_roots_one. Qed.
+Print Assumptions C13_reach_wires_all_roots_one.
 
 (* under ALL the setting of recursive does not change the result (as a set) *)
 Theorem C13_get_wires_all_recursive_irrelevant : forall s, QWF s -> forall cb f1 f2 rec1 rec2 root r1 r2,
